@@ -215,10 +215,17 @@ def job_intel(modname, clsname, ckw, win, nout, margin, tag):
                      cfg=dict(cls=clsname, ctor=ckw, window=win, outputs=nout, margin=margin), replay_dir=rdir(), max_paths=400000)
 
 
-def job_nx(win, nout, margin, tag):
+def job_nx(win, nout, margin, tag, same_freq=False):
+    """same_freq: all outputs request ONE frequency (the same solver variable, the same object) with different margins (margin is a list then).
+    In that variant symbolic values are hashable by identity for the duration of the job: code that keys a cache by the requested frequency
+    then finds its own entry again (an exploration aid that can only lose behaviours, never invent one: every violation is replayed concretely)."""
     from migen import Signal
     stubs((1, 2))
     from litex.soc.cores.clock.lattice_nx import NXPLL
+    margins = list(margin) if isinstance(margin, (list, tuple)) else [margin] * nout
+    if same_freq:
+        pysym.Sym.__hash__ = lambda self: id(self)
+        pysym.SymNum.__hash__ = lambda self: id(self)
 
     def body(ctx):
         pll = NXPLL()
@@ -232,9 +239,9 @@ def job_nx(win, nout, margin, tag):
         omin, omax = pll.clko_freq_range
         fs_ = []
         for i in range(nout):
-            f = ctx.real("f%d" % i, Fraction(omin), Fraction(omax))
+            f = fs_[0] if (same_freq and i) else ctx.real("f%d" % i, Fraction(omin), Fraction(omax))
             fs_.append(f)
-            pll.clkouts[i] = (Signal(), f, 0, ctx.exact(margin))
+            pll.clkouts[i] = (Signal(), f, 0, ctx.exact(margins[i]))
         pll.nclkouts = nout
         vmin, vmax = pll.vco_out_freq_range
         pmin, pmax = pll.vco_in_freq_range
@@ -245,8 +252,8 @@ def job_nx(win, nout, margin, tag):
             c = [vco >= Fraction(vmin) * (1 - slack), vco <= Fraction(vmax) * (1 + slack)]
             if with_pfd:
                 c += [pfd >= Fraction(pmin) * (1 - slack), pfd <= Fraction(pmax) * (1 + slack)]
-            for f, d in zip(fs_, ds):
-                c.append(within(vco / d, f, margin, slack))
+            for f, d, mg_ in zip(fs_, ds, margins):
+                c.append(within(vco / d, f, mg_, slack))
             return AND(*c)
         try:
             cfg = pll.compute_config()
@@ -262,7 +269,7 @@ def job_nx(win, nout, margin, tag):
         return dict(dividers_inside_ranges=inr, outputs_within_margin_and_vco_in_range=spec(ci, cb, ds, SL, with_pfd=False),
                     phase_detector_input_inside_declared_range=AND(pfd >= Fraction(pmin) * (1 - SL), pfd <= Fraction(pmax) * (1 + SL)))
     checks = ["dividers_inside_ranges", "outputs_within_margin_and_vco_in_range", "phase_detector_input_inside_declared_range", "refused_only_if_no_setting_in_window"]
-    return run_pysym("nxpll_%s" % tag, body, checks, required_events=["configured", "refused"], funcs=FUNCS, cfg=dict(window=win, outputs=nout, margin=margin), replay_dir=rdir(), max_paths=300000)
+    return run_pysym("nxpll_%s" % tag, body, checks, required_events=["configured", "refused"], funcs=FUNCS, cfg=dict(window=win, outputs=nout, margin=margin, same_frequency=same_freq), replay_dir=rdir(), max_paths=300000)
 
 
 def jobs(tier):
@@ -278,6 +285,7 @@ def jobs(tier):
               ("intel_cyclone4", "CycloneIVPLL", dict(speedgrade="-6"), dict(n=(90, 2), m=(200, 2), c=(500, 2)), 1, 1e-2, "high_1out")]
     for (modn, cls, ckw, win, nout, mg, tag) in I:
         js.append(Job("%s_%s" % (cls.lower(), tag), job_intel, dict(modname=modn, clsname=cls, ckw=ckw, win=win, nout=nout, margin=mg, tag=tag), cost=40 * nout * nout, timeout_s=7000))
+    js.append(Job("nxpll_same_freq_two_margins", job_nx, dict(win=dict(clki_div=(1, 2), clkfb_div=(80, 2), clko_div=(14, 4)), nout=2, margin=[1e-2, 1e-4], tag="same_freq_two_margins", same_freq=True), cost=30, timeout_s=3000))
     js.append(Job("nxpll_low_1out", job_nx, dict(win=dict(clki_div=(1, 2), clkfb_div=(80, 3), clko_div=(1, 3)), nout=1, margin=1e-2, tag="low_1out"), cost=20, timeout_s=7000))
     js.append(Job("gw1npll_tiny_2out", job_gowin, dict(win=dict(idiv=(1, 1), fdiv=(4, 1)), nout=2, margin=1e-2, tag="tiny_2out"), cost=90, timeout_s=3000))
     js.append(Job("gw1npll_low_1out", job_gowin, dict(win=dict(idiv=(1, 2), fdiv=(1, 3)), nout=1, margin=1e-2, tag="low_1out"), cost=30, timeout_s=7000))
